@@ -618,8 +618,10 @@ func (fc *FnCtx) box(v Val, iface types.Type) Val {
 	if isUntyped(v.Ty) {
 		v = fc.coerce(v, types.Default(v.Ty))
 	}
-	if _, ok := v.Ty.Underlying().(*types.Interface); ok {
-		return Val{T: v.T, Ty: iface}
+	if _, isTP := v.Ty.(*types.TypeParam); !isTP {
+		if _, ok := v.Ty.Underlying().(*types.Interface); ok {
+			return Val{T: v.T, Ty: iface}
+		}
 	}
 	tag := fc.typeTag(v.Ty)
 	s := fc.sortOf(v.Ty)
